@@ -72,7 +72,7 @@ def cases(O):
     for i, c in enumerate(gen):
         rng = random.Random("%s/c09lay/%d" % (O.seed, i))
         c["calls"][0]["code"] = layout_variants(c["calls"][0]["code"], rng)
-        c["calls"][0]["file"] = rng.choice(["dir/sub/test.js", "test.js", "/abs/path/file.js", "a b/cé.js"])
+        c["calls"][0]["file"] = rng.choice(["dir/sub/test.js", "test.js", "/abs/path/file.js", "a b/cé.js", "/srv/lib/legacy\\greet.js", "rel\\win.js"])
     cs += gen + E.finding_cases("C09", opts)
     return cs
 
